@@ -1,7 +1,461 @@
-import StarsimModel.Model.Timeline
+/-
+C07 — Every accepted time specification yields a consistent timeline.
+
+Property theorems and non-vacuity examples only (helper lemmas: Lemmas/Calendar.lean, Lemmas/Timeline.lean).
+Models: Model/Calendar.lean, Model/Timeline.lean, Model/F64.lean.  The unit table, the defaults, the unit aliases
+and `time_eps` are regenerated from /repo on every run (Generated/TimeUnits.lean, Generated/TimeDefaults.lean).
+
+Variants (DESIGN 4.5): `spec` computes the grid length and the calendar placement exactly; `asis` follows today's
+code, which takes these decisions in float64 (modelled exactly by Model/F64.lean) and replaces a fractional calendar
+step by a constant whole-day step.  For `asis` there is a `_partial` theorem and a kernel-checked counterexample.
+-/
+import StarsimModel.Lemmas.Timeline
+
 namespace StarsimModel.C07
-open StarsimModel.Timeline StarsimModel.Calendar
+open StarsimModel StarsimModel.Calendar StarsimModel.Timeline
+
+/-! ### obligations on the regenerated tables -/
+
+/-- `round_tvec` rounds to exactly `time_eps`: `10^decimals · time_eps = 1` -/
+theorem C07_eps_decimals : Gen.timeEpsC07 * pow10 = 1 := by decide +kernel
+
+/-- every unit of `time_units` has a positive length, the day is 1 day, and `unitless` has no length -/
+theorem C07_units_positive :
+    (∀ r ∈ Gen.timeUnits, 0 < r.2) ∧ unitDays? .day = some 1 ∧ (unitDays? .week).isSome = true ∧
+    (unitDays? .month).isSome = true ∧ (unitDays? .year).isSome = true ∧ unitDays? .unitless = none := by
+  decide +kernel
+
+/-- the defaults are usable: the default unit is a known alias, the default start date is a valid date, the default
+    duration is positive, every canonical unit name is its own alias -/
+theorem C07_defaults_wellformed :
+    (validateUnit Gen.defaultUnit).isSome = true ∧
+    (Date.mk Gen.defaultStartDate.1 Gen.defaultStartDate.2.1 Gen.defaultStartDate.2.2).valid = true ∧
+    1 ≤ Gen.defaultStartYear ∧ 0 < Gen.defaultDur ∧ 0 < Gen.simDefaultDt ∧
+    (∀ u : TUnit, validateUnit u.name = some u) := by
+  refine ⟨by decide +kernel, by decide +kernel, by decide +kernel, by decide +kernel, by decide +kernel, ?_⟩
+  intro u; cases u <;> decide +kernel
+
+/-! ### the grid (numeric and year-based timelines) -/
+
+/-- **Grid, `spec` variant.**  For every start ≤ stop and dt > 0 the timeline has `⌊(stop−start)/dt⌋ + 1` points;
+    the first is the start, consecutive points are exactly `dt` apart, the points are strictly increasing, and the
+    last one is the last grid point not after `stop` (`last ≤ stop < last + dt`). -/
+theorem C07_grid (a b dt : Num) (hdt : 0 < dt.q) (hab : a.q ≤ b.q) :
+    ∃ npts : Nat, gridCount .spec a b dt = .ok npts ∧
+      (npts : Int) = ((b.q - a.q) / dt.q).floor + 1 ∧
+      (grid a.q dt.q npts).length = npts ∧
+      (∀ h : 0 < (grid a.q dt.q npts).length, (grid a.q dt.q npts)[0] = a.q) ∧
+      (∀ i (h : i + 1 < (grid a.q dt.q npts).length),
+          (grid a.q dt.q npts)[i + 1] - (grid a.q dt.q npts)[i] = dt.q) ∧
+      (grid a.q dt.q npts).Pairwise (· < ·) ∧
+      (∀ h : npts - 1 < (grid a.q dt.q npts).length,
+          (grid a.q dt.q npts)[npts - 1] ≤ b.q ∧ b.q < (grid a.q dt.q npts)[npts - 1] + dt.q) := by
+  have hN := floor_nonneg a.q b.q dt.q hdt hab
+  have hne : dt.q ≠ 0 := ne_of_gt hdt
+  refine ⟨(((b.q - a.q) / dt.q).floor + 1).toNat, ?_, ?_, grid_length _ _ _, ?_, ?_, grid_pairwise _ _ _ hdt, ?_⟩
+  · simp only [gridCount, gridSteps, hne, if_false]
+    rw [if_neg (by omega)]
+  · rw [Int.toNat_of_nonneg (by omega)]
+  · intro h; rw [grid_getElem]; simp
+  · intro i h; rw [grid_getElem, grid_getElem]; push_cast; ring
+  · intro h
+    rw [grid_getElem]
+    have hc : (((((b.q - a.q) / dt.q).floor + 1).toNat - 1 : Nat) : Rat) = (((b.q - a.q) / dt.q).floor : Rat) := by
+      have : (((((b.q - a.q) / dt.q).floor + 1).toNat - 1 : Nat) : Int) = ((b.q - a.q) / dt.q).floor := by omega
+      exact_mod_cast this
+    rw [hc]
+    obtain ⟨h1, h2⟩ := floor_bounds a.q b.q dt.q hdt
+    exact ⟨h1, h2⟩
+
+/-- non-vacuity: start 2000, stop 2010.25, dt 0.5 gives 21 points -/
+example : gridCount .spec (Num.ofRat 2000) (Num.ofRat (8041/4)) (Num.ofRat (1/2)) = .ok 21 := by decide +kernel
+
+/-- **Grid, `asis` variant: counterexample.**  The code computes `int((stop-start)/dt)` in float64.  For
+    start = 0, stop = 3/10, dt = 1/10 (and start = 1, stop = 41/10, dt = 1/10) the exact quotient is the integer
+    3 (30) but the float quotient is just below it and truncates to 2 (29): the timeline loses its last point. -/
 theorem C07_grid_float_counterexample :
     gridSteps .asis (Num.ofRat 0) (Num.ofRat (3/10)) (Num.ofRat (1/10)) = 2 ∧
-    gridSteps .spec (Num.ofRat 0) (Num.ofRat (3/10)) (Num.ofRat (1/10)) = 3 := by decide +kernel
+    gridSteps .spec (Num.ofRat 0) (Num.ofRat (3/10)) (Num.ofRat (1/10)) = 3 ∧
+    gridSteps .asis (Num.ofRat 1) (Num.ofRat (41/10)) (Num.ofRat (1/10)) = 30 ∧
+    gridSteps .spec (Num.ofRat 1) (Num.ofRat (41/10)) (Num.ofRat (1/10)) = 31 ∧
+    gridCount .asis (Num.ofRat 0) (Num.ofRat (3/10)) (Num.ofRat (1/10)) = .ok 3 ∧
+    gridCount .spec (Num.ofRat 0) (Num.ofRat (3/10)) (Num.ofRat (1/10)) = .ok 4 := by
+  decide +kernel
+
+/-- the float model is the IEEE double: 0.1 is 3602879701896397 / 2^55 and 0.3/0.1 rounds to 2.9999999999999996 -/
+theorem C07_float_witness :
+    F64.rd (1/10) = (3602879701896397 : Rat) / 36028797018963968 ∧
+    F64.div (F64.rd (3/10)) (F64.rd (1/10)) = (6755399441055743 : Rat) / 2251799813685248 := by
+  decide +kernel
+
+/-- **Grid, `asis` variant, partial.**  Whenever the truncated float quotient equals the exact floor (the decidable
+    hypothesis excluding the defect) the code's number of points is the specified one. -/
+theorem C07_grid_partial (a b dt : Num) (h : gridSteps .asis a b dt = gridSteps .spec a b dt) :
+    gridCount .asis a b dt = gridCount .spec a b dt := by
+  simp only [gridCount, h]
+
+example : gridSteps .asis (Num.ofRat 2000) (Num.ofRat 2020) (Num.ofRat (1/5)) =
+          gridSteps .spec (Num.ofRat 2000) (Num.ofRat 2020) (Num.ofRat (1/5)) := by decide +kernel
+
+/-! ### elapsed time and rounding -/
+
+/-- **tvec.**  `tvec` has one entry per point and `tvec[i] = round_tvec(i·dt)`; when dt is a whole number of
+    `time_eps` the rounding is the identity: `tvec[i] = i·dt` exactly. -/
+theorem C07_tvec (dt : Rat) (npts : Nat) :
+    (tvecOf dt npts).length = npts ∧
+    (∀ i (h : i < (tvecOf dt npts).length), (tvecOf dt npts)[i] = round6 ((i : Rat) * dt)) ∧
+    (∀ k : Int, dt * pow10 = (k : Rat) →
+      ∀ i (h : i < (tvecOf dt npts).length), (tvecOf dt npts)[i] = (i : Rat) * dt) := by
+  refine ⟨by simp [tvecOf], fun i h => by simp [tvecOf], fun k hk i h => ?_⟩
+  have : (tvecOf dt npts)[i] = round6 ((i : Rat) * dt) := by simp [tvecOf]
+  rw [this]
+  apply round6_exact _ ((i : Int) * k)
+  push_cast
+  rw [← hk]; ring
+
+example : (1 / 4 : Rat) * pow10 = ((250000 : Int) : Rat) := by decide +kernel
+
+/-- `round_tvec` moves a value by at most half of `time_eps` and fixes whole multiples of it -/
+theorem C07_round (x : Rat) :
+    |round6 x - x| ≤ Gen.timeEpsC07 / 2 ∧ (∀ k : Int, x * pow10 = (k : Rat) → round6 x = x) := by
+  refine ⟨?_, fun k hk => round6_exact x k hk⟩
+  have h := rhe_close (x * pow10)
+  have hp := pow10_pos
+  have he : Gen.timeEpsC07 = 1 / pow10 := by
+    have := C07_eps_decimals
+    field_simp
+    linarith
+  unfold round6
+  rw [he, abs_le] at *
+  obtain ⟨h1, h2⟩ := h
+  constructor
+  · rw [le_sub_iff_add_le, div_add' _ _ _ (ne_of_gt hp), le_div_iff₀ hp]
+    field_simp
+    linarith
+  · rw [sub_le_iff_le_add, div_le_iff₀ hp]
+    field_simp
+    linarith
+
+/-! ### the calendar -/
+
+/-- **Calendar round trip.**  `fromOrdinal ∘ toOrdinal` is the identity on valid dates, every day number ≥ 1 is the
+    number of a valid date, and the day number is strictly monotone in (year, month, day) — for all years ≥ 1. -/
+theorem C07_calendar_roundtrip :
+    (∀ t : Date, t.valid = true → fromOrdinal (toOrdinal t) = t) ∧
+    (∀ n : Nat, 1 ≤ n → (fromOrdinal n).valid = true ∧ toOrdinal (fromOrdinal n) = n) ∧
+    (∀ s t : Date, s.valid = true → t.valid = true → Date.lt s t → toOrdinal s < toOrdinal t) :=
+  ⟨fromOrdinal_toOrdinal, toOrdinal_fromOrdinal, toOrdinal_lt⟩
+
+example : (Date.mk 2024 2 29).valid = true ∧ toOrdinal ⟨2024, 2, 29⟩ = 738945 ∧
+    fromOrdinal 738945 = ⟨2024, 2, 29⟩ ∧ (Date.mk 2023 2 29).valid = false := by decide +kernel
+
+/-- an accepted integer dt on a calendar timeline uses the exact step -/
+theorem C07_calendar_integer_branch (v : Variant) (u : TUnit) (a b : Date) (dt : Num)
+    (hpos : 0 < dt.q) (hint : dt.q.den = 1) :
+    calendarDates v u a b dt = .ok (dateRange (stepDate u dt.q.num.toNat) b (rangeFuel a b) a) := by
+  simp [calendarDates, not_le.2 hpos, hint]
+
+/-- **Integer dt on day/week timelines.**  With `w` = 1 (day) or 7 (week) days per unit and an integer step
+    `k ≥ 1`: there are `⌊(stop−start)/(k·w)⌋ + 1` dates, date `i` is exactly `i·k·w` days after the start
+    (so the first date is the start and the spacing is uniform), and no date lies after `stop`. -/
+theorem C07_dates_integer_dt (u : TUnit) (w : Nat) (hu : (u = .day ∧ w = 1) ∨ (u = .week ∧ w = 7))
+    (k : Nat) (hk : 1 ≤ k) (a b : Date) (ha : a.valid = true) (hab : toOrdinal a ≤ toOrdinal b) :
+    let l := dateRange (stepDate u k) b (rangeFuel a b) a
+    l.length = (toOrdinal b - toOrdinal a) / (w * k) + 1 ∧
+    (∀ i (h : i < l.length), l[i] = fromOrdinal (toOrdinal a + i * (w * k)) ∧
+        toOrdinal l[i] = toOrdinal a + i * (w * k)) ∧
+    (∀ d ∈ l, toOrdinal d ≤ toOrdinal b) := by
+  have hstep : stepDate u k = fun d => d.addDays ((w * k : Nat) : Int) := by
+    rcases hu with ⟨rfl, rfl⟩ | ⟨rfl, rfl⟩
+    · funext d; simp [stepDate]
+    · funext d; simp [stepDate]
+  have hw : 1 ≤ w * k := by
+    rcases hu with ⟨_, rfl⟩ | ⟨_, rfl⟩ <;> omega
+  intro l
+  have hl : l = dateRange (fun d => d.addDays ((w * k : Nat) : Int)) b (rangeFuel a b) a := by
+    simp only [l, hstep]
+  refine ⟨?_, ?_, ?_⟩
+  · rw [hl, dateRange_days_length (w * k) hw b (rangeFuel a b) a ha (by unfold rangeFuel; omega), if_pos hab]
+  · intro i h
+    have h' : i < (dateRange (fun d => d.addDays ((w * k : Nat) : Int)) b (rangeFuel a b) a).length := by rw [← hl]; exact h
+    have e : l[i] = fromOrdinal (toOrdinal a + i * (w * k)) := by
+      simp only [hl]
+      exact dateRange_days (w * k) b (rangeFuel a b) a ha i h'
+    refine ⟨e, ?_⟩
+    rw [e]
+    exact (toOrdinal_fromOrdinal _ (by have := toOrdinal_pos_of_valid a ha; omega)).2
+  · rw [hl]; exact dateRange_le_stop _ b _ a
+
+/-- non-vacuity: weekly dates over the leap day of 2024 -/
+example : (dateRange (stepDate .week 1) ⟨2024, 3, 31⟩ (rangeFuel ⟨2024, 2, 15⟩ ⟨2024, 3, 31⟩) ⟨2024, 2, 15⟩).map Date.iso =
+    ["2024-02-15", "2024-02-22", "2024-02-29", "2024-03-07", "2024-03-14", "2024-03-21", "2024-03-28"] := by
+  decide +kernel
+
+/-- **Integer dt on month timelines.**  Every date after the first is `k` months after its predecessor: the month
+    index advances by exactly `k` and the day is the previous day clipped to the length of the new month
+    (cumulatively, as `sc.daterange` does); the first date is the start; no date lies after `stop`. -/
+theorem C07_dates_integer_dt_month (k : Nat) (a b : Date) (ha : a.valid = true) :
+    let l := dateRange (stepDate .month k) b (rangeFuel a b) a
+    (∀ h : 0 < l.length, l[0] = a) ∧
+    (∀ i (h : i + 1 < l.length), l[i + 1] = addMonths (l[i]'(by omega)) k) ∧
+    (∀ t : Date, 1 ≤ t.m → t.m ≤ 12 →
+        monthIndex (addMonths t k) = monthIndex t + k ∧
+        (addMonths t k).d = min t.d (monthLen (addMonths t k).y (addMonths t k).m)) ∧
+    (∀ d ∈ l, toOrdinal d ≤ toOrdinal b) := by
+  intro l
+  refine ⟨fun h => dateRange_head _ b _ a h, fun i h => dateRange_step _ b _ a i h, ?_, dateRange_le_stop _ b _ a⟩
+  intro t h1 h2
+  obtain ⟨e1, e2, _, _⟩ := monthIndex_addMonths t k h1 h2
+  exact ⟨e1, e2⟩
+
+/-- non-vacuity: monthly steps from 31 January 2020 clip to 29 February and stay on the 29th -/
+example : (dateRange (stepDate .month 1) ⟨2020, 5, 31⟩ (rangeFuel ⟨2020, 1, 31⟩ ⟨2020, 5, 31⟩) ⟨2020, 1, 31⟩).map Date.iso =
+    ["2020-01-31", "2020-02-29", "2020-03-29", "2020-04-29", "2020-05-29"] := by decide +kernel
+
+/-- **Fractional dt on calendar timelines, `asis`, partial.**  Today's code advances by the constant whole-day step
+    `dd = round(dt · days-per-unit)`.  Date `i` is `i·dd` days after the start; it coincides with the elapsed time
+    `tvec[i]·days-per-unit = i·dt·days-per-unit` for every `i` exactly when that step is exact (the decidable
+    hypothesis excluding the defect), and otherwise the two drift apart by `i·|dd − dt·days-per-unit|`. -/
+theorem C07_fractional_dt_partial (u : TUnit) (a b : Date) (dt : Num) (ha : a.valid = true)
+    (hpos : 0 < dt.q) (hfrac : dt.q.den ≠ 1) (hdd : 1 ≤ dayDelta u dt) :
+    ∃ l, calendarDates .asis u a b dt = .ok l ∧
+      (∀ i (h : i < l.length), toOrdinal l[i] = toOrdinal a + i * (dayDelta u dt).toNat) ∧
+      (∀ i (h : i < l.length),
+        ((toOrdinal l[i] : Rat) - toOrdinal a) - ((i : Rat) * dt.q) * unitDays u
+          = (i : Rat) * ((dayDelta u dt : Rat) - dt.q * unitDays u)) ∧
+      ((dayDelta u dt : Rat) = dt.q * unitDays u →
+        ∀ i (h : i < l.length), (toOrdinal l[i] : Rat) - toOrdinal a = ((i : Rat) * dt.q) * unitDays u) := by
+  have hdd' : ((dayDelta u dt).toNat : Int) = dayDelta u dt := Int.toNat_of_nonneg (by omega)
+  have hfun : (fun d : Date => d.addDays (dayDelta u dt)) = fun d => d.addDays (((dayDelta u dt).toNat : Nat) : Int) := by
+    funext d; rw [hdd']
+  refine ⟨dateRange (fun d => d.addDays (dayDelta u dt)) b (rangeFuel a b) a, ?_, ?_, ?_, ?_⟩
+  · simp [calendarDates, not_le.2 hpos, hfrac, hdd]
+  · intro i h
+    simp only [hfun] at h ⊢
+    rw [dateRange_days _ b _ a ha i h]
+    exact (toOrdinal_fromOrdinal _ (by have := toOrdinal_pos_of_valid a ha; omega)).2
+  · intro i h
+    have e : toOrdinal (dateRange (fun d => d.addDays (dayDelta u dt)) b (rangeFuel a b) a)[i]
+        = toOrdinal a + i * (dayDelta u dt).toNat := by
+      simp only [hfun] at h ⊢
+      rw [dateRange_days _ b _ a ha i h]
+      exact (toOrdinal_fromOrdinal _ (by have := toOrdinal_pos_of_valid a ha; omega)).2
+    rw [e]
+    have hc : (((dayDelta u dt).toNat : Nat) : Rat) = (dayDelta u dt : Rat) := by exact_mod_cast hdd'
+    push_cast
+    rw [hc]; ring
+  · intro hex i h
+    have e : toOrdinal (dateRange (fun d => d.addDays (dayDelta u dt)) b (rangeFuel a b) a)[i]
+        = toOrdinal a + i * (dayDelta u dt).toNat := by
+      simp only [hfun] at h ⊢
+      rw [dateRange_days _ b _ a ha i h]
+      exact (toOrdinal_fromOrdinal _ (by have := toOrdinal_pos_of_valid a ha; omega)).2
+    rw [e]
+    have hc : (((dayDelta u dt).toNat : Nat) : Rat) = (dayDelta u dt : Rat) := by exact_mod_cast hdd'
+    push_cast
+    rw [hc, hex]; ring
+
+/-- non-vacuity of the hypotheses (unit = day, dt = 5/2: step 2 days) -/
+example : (0 : Rat) < (Num.ofRat (5/2)).q ∧ (Num.ofRat (5/2)).q.den ≠ 1 ∧ dayDelta .day (Num.ofRat (5/2)) = 2 := by
+  decide +kernel
+
+/-- **Fractional dt, `asis`: counterexample.**  unit = day, dt = 5/2 from 2020-01-01: the code's dates advance by a
+    constant 2 days (`2020-01-01, 01-03, 01-05, 01-07, 01-09, …`) while `tvec` advances by 2.5; at `i = 4` the date
+    is 8 days after the start but the elapsed time is 10 days — more than a calendar day apart.  The `spec`
+    variant places point 4 on day 10. -/
+theorem C07_fractional_dt_counterexample :
+    (calendarDates .asis .day ⟨2020, 1, 1⟩ ⟨2020, 1, 31⟩ (Num.ofRat (5/2))).toOption.map (fun l => (l.take 5).map Date.iso)
+      = some ["2020-01-01", "2020-01-03", "2020-01-05", "2020-01-07", "2020-01-09"] ∧
+    (tvecOf (5/2) 5)[4]? = some 10 ∧
+    (calendarDates .spec .day ⟨2020, 1, 1⟩ ⟨2020, 1, 31⟩ (Num.ofRat (5/2))).toOption.map (fun l => (l.take 5).map Date.iso)
+      = some ["2020-01-01", "2020-01-03", "2020-01-06", "2020-01-09", "2020-01-11"] ∧
+    (calendarDates .asis .day ⟨2020, 1, 1⟩ ⟨2020, 1, 31⟩ (Num.ofRat (5/2))).toOption.map List.length = some 16 ∧
+    (calendarDates .spec .day ⟨2020, 1, 1⟩ ⟨2020, 1, 31⟩ (Num.ofRat (5/2))).toOption.map List.length = some 13 := by
+  decide +kernel
+
+/-! ### year ↔ date -/
+
+/-- **Representations agree (year ↔ date), `spec`.**  The date `sc.yeartodate` gives for a decimal year lies within
+    half a day of the instant the year denotes: `|days after 1 January − fraction·yearlen| ≤ 1/2`. -/
+theorem C07_representations_agree (y : Rat) :
+    |((yearToDays .spec y).2 : Rat) - (y - ((yearToDays .spec y).1 : Rat)) * (yearLen (yearToDays .spec y).1 : Rat)| ≤ 1 / 2 := by
+  simp only [yearToDays]
+  exact rhe_close _
+
+/-- for year values that are whole days the conversions are mutually inverse (here: a sample, kernel-checked) -/
+example : yearToDate .spec (dateToYear ⟨2024, 10, 1⟩) = ⟨2024, 10, 1⟩ ∧ yearToDate .asis 2020 = ⟨2020, 1, 1⟩ ∧
+    yearToDate .asis (40025/20) = ⟨2001, 4, 2⟩ := by decide +kernel
+
+/-! ### placement of a module on the sim's elapsed-time axis -/
+
+/-- **abstvec, numeric timelines.**  When module and sim are both numeric, module point `i` lies at
+    `tvec[i]·(module unit / sim unit) + (module start − sim start)` sim units (rounded to `time_eps`); in the same
+    unit that is the module's own time minus the sim's start. -/
+theorem C07_abstvec_numeric (m sim : Timeline) (a b : Num) (r : Rat)
+    (hm : m.start = .num a) (hs : sim.start = .num b)
+    (hu : decide (m.unit = .unitless) = decide (sim.unit = .unitless)) (hr : unitRatio m.unit sim.unit = .ok r) :
+    makeAbstvec m sim = .ok (m.tvec.map (fun t => round6 (t * r + (a.q - b.q)))) ∧
+    (m.unit = sim.unit → r = 1) := by
+  constructor
+  · simp [makeAbstvec, hm, hs, hu, hr, TVal.isNum, bind, Except.bind, pure, Except.pure]
+  · intro h
+    simp [unitRatio, h] at hr
+    exact hr.symm
+
+/-- **abstvec, year-based sim** (module or sim not numeric): module point `i` lies at `yearvec[i] − sim.yearvec[0]`
+    years, the difference of the instants. -/
+theorem C07_abstvec_year (m sim : Timeline)
+    (hu : decide (m.unit = .unitless) = false) (hsu : sim.unit = .year)
+    (hn : (m.start.isNum && sim.start.isNum) = false) :
+    makeAbstvec m sim = .ok (m.yearvec.map (fun y => round6 (y - sim.yearvec.headD 0))) := by
+  simp [makeAbstvec, hu, hsu, hn, bind, Except.bind, pure, Except.pure]
+
+/-- **abstvec, day/week/month sim** (module or sim not numeric): module point `i` lies at
+    `(days from the sim's first date to the module's date i) / days-per-sim-unit`. -/
+theorem C07_abstvec_days (m sim : Timeline) (w : Rat)
+    (hu : decide (m.unit = .unitless) = false) (hsu : sim.unit ≠ .year) (hsl : sim.unit ≠ .unitless)
+    (hw : unitDays? sim.unit = some w) (hn : (m.start.isNum && sim.start.isNum) = false) :
+    makeAbstvec m sim = .ok (m.datevec.map (fun d => round6 ((d.diffDays (sim.datevec.headD default) : Int) *
+        (if sim.unit = .day then 1 else 1 / w)))) := by
+  have h1 : unitDays? .day = some 1 := C07_units_positive.2.1
+  by_cases hd : sim.unit = .day
+  · simp [makeAbstvec, hu, hsu, hsl, hn, hd, unitRatio, bind, Except.bind, pure, Except.pure]
+  · have hd' : ¬ (TUnit.day = sim.unit) := fun h => hd h.symm
+    simp [makeAbstvec, hu, hsu, hsl, hn, hd, hd', unitRatio, hw, h1, bind, Except.bind, pure, Except.pure]
+
+/-- the placement has one entry per module point -/
+theorem C07_abstvec (m sim : Timeline) (l : List Rat) (h : makeAbstvec m sim = .ok l)
+    (h1 : m.tvec.length = m.npts) (h2 : m.yearvec.length = m.npts) (h3 : m.datevec.length = m.npts) :
+    l.length = m.npts := by
+  unfold makeAbstvec at h
+  simp only [bind, Except.bind, pure, Except.pure] at h
+  split at h
+  · cases h
+  · split at h
+    · split at h
+      · cases h
+      · split at h
+        · cases h; simp [h1]
+        · cases h
+    · split at h
+      · cases h; simp [h2]
+      · split at h
+        · cases h
+        · cases h; simp [h3]
+
+/-! ### one entry per time point -/
+
+/-- **Vector and result lengths.**  Every accepted specification gives vectors with exactly `npts` entries, and every
+    result of the owner is created with `npts` entries. -/
+theorem C07_results_len (v : Variant) (s : Spec) (t : Timeline) (h : initTime v s = .ok t) :
+    resultLen t = t.npts ∧ t.tvec.length = t.npts ∧ t.yearvec.length = t.npts ∧ t.datevec.length = t.npts ∧
+    (t.numeric = true → t.timevec.length = t.npts) := by
+  have mapM_len : ∀ (ys : List Rat) (ds : List Date), yearsToDates v ys = .ok ds → ds.length = ys.length := by
+    intro ys
+    induction ys with
+    | nil => intro ds h; simp [yearsToDates, List.mapM_nil, pure, Except.pure] at h; simp [← h]
+    | cons y ys ih =>
+        intro ds h
+        simp only [yearsToDates, List.mapM_cons, bind, Except.bind, pure, Except.pure] at h ih
+        split at h
+        · cases h
+        · rename_i d hd
+          split at h
+          · cases h
+          · rename_i rest hrest
+            cases h
+            simp [ih rest hrest]
+  refine ⟨rfl, ?_⟩
+  unfold initTime at h
+  simp only [bind, Except.bind, pure, Except.pure] at h
+  split at h
+  · -- numeric
+    split at h
+    · cases h
+    · rename_i n hn
+      split at h
+      · cases h
+      · split at h
+        · cases h
+        · rename_i ds hds
+          cases h
+          have := mapM_len _ _ hds
+          simp [tvecOf, grid] at this ⊢
+          exact this
+  · cases h
+  · -- date start
+    split at h
+    · cases h
+    · rename_i b hb
+      split at h
+      · cases h
+      · split at h
+        · split at h
+          · cases h
+          · rename_i n hn
+            split at h
+            · cases h
+            · rename_i ds hds
+              cases h
+              have := mapM_len _ _ hds
+              simp [tvecOf, grid] at this ⊢
+              exact this
+        · split at h
+          · cases h
+          · rename_i ds hds
+            cases h
+            simp [tvecOf]
+
+/-! ### rejections -/
+
+/-- `stop` and `dur` both given: rejected (ValueError), whatever the rest -/
+theorem C07_reject_stop_and_dur (p : SimPars) (stop : TVal) (dur : Num) (u : TUnit)
+    (hu : validateUnit (if p.unit = Gen.simUnitPlaceholder then Gen.defaultUnit else p.unit) = some u)
+    (hs : p.stop = some stop) (hd : p.dur = some dur) : validateTime p = .error .value := by
+  simp [validateTime, hu, hs, hd, bind, Except.bind, pure, Except.pure, throw, throwThe, MonadExceptOf.throw]
+
+/-- an unknown unit is rejected (KeyNotFoundError) -/
+theorem C07_reject_unknown_unit (p : SimPars)
+    (hu : validateUnit (if p.unit = Gen.simUnitPlaceholder then Gen.defaultUnit else p.unit) = none) :
+    validateTime p = .error .key := by
+  simp [validateTime, hu, bind, Except.bind, throw, throwThe, MonadExceptOf.throw]
+
+/-- a numeric stop that is not after the start is rejected (`dur <= 0`, ValueError) -/
+theorem C07_reject_nonpositive_dur (p : SimPars) (a b : Num) (u : TUnit)
+    (hu : validateUnit (if p.unit = Gen.simUnitPlaceholder then Gen.defaultUnit else p.unit) = some u)
+    (hst : p.start = some (.num a)) (hs : p.stop = some (.num b)) (hd : p.dur = none) (hle : b.q ≤ a.q) :
+    validateTime p = .error .value := by
+  have : b.q - a.q ≤ 0 := by linarith
+  simp [validateTime, hu, hst, hs, hd, dateDiff, this, bind, Except.bind, pure, Except.pure, throw, throwThe, MonadExceptOf.throw]
+
+/-- a fractional calendar step that rounds to less than one day is rejected (ValueError) -/
+theorem C07_reject_small_step (u : TUnit) (a b : Date) (dt : Num)
+    (hpos : 0 < dt.q) (hfrac : dt.q.den ≠ 1) (hdd : dayDelta u dt < 1) :
+    calendarDates .asis u a b dt = .error .value := by
+  simp [calendarDates, not_le.2 hpos, hfrac, not_le.2 hdd]
+
+/-- a module with units in a unitless sim (or the reverse) is rejected (ValueError) -/
+theorem C07_reject_mix_unitless (m sim : Timeline)
+    (h : decide (m.unit = .unitless) ≠ decide (sim.unit = .unitless)) : makeAbstvec m sim = .error .value := by
+  simp [makeAbstvec, h, bind, Except.bind, throw, throwThe, MonadExceptOf.throw]
+
+/-- non-vacuity of the rejections, and an accepted neighbour of each -/
+example :
+    validateTime ⟨"year", some (.num (Num.ofRat 2000)), some (.num (Num.ofRat 2010)), some (Num.ofRat 10), Num.ofRat 1⟩ = .error .value ∧
+    validateTime ⟨"fortnight", none, none, none, Num.ofRat 1⟩ = .error .key ∧
+    validateTime ⟨"year", some (.num (Num.ofRat 2000)), some (.num (Num.ofRat 2000)), none, Num.ofRat 1⟩ = .error .value ∧
+    calendarDates .asis .day ⟨2020, 1, 1⟩ ⟨2020, 2, 1⟩ (Num.ofRat (2/5)) = .error .value ∧
+    (validateTime ⟨"year", some (.num (Num.ofRat 2000)), some (.num (Num.ofRat 2010)), none, Num.ofRat 1⟩).toOption.isSome = true ∧
+    (validateTime ⟨"", none, none, none, Num.ofRat 1⟩).toOption.map (fun s => (s.unit, s.start, s.stop))
+      = some (.year, .num (Num.ofNat 2000), .num ⟨2050, 2050⟩) := by
+  decide +kernel
+
+/-- non-vacuity end to end: the sim `unit='day', start=2020-01-01, dur=30, dt=1` with a module `unit='week', dt=1`:
+    31 sim points, 5 module points placed at days 0, 7, 14, 21, 28 -/
+example :
+    ((simTimeline .asis ⟨"day", some (.date ⟨2020, 1, 1⟩), none, some (Num.ofRat 30), Num.ofRat 1⟩).toOption.bind
+      (fun s => (moduleTimeline .asis s ⟨some "week", none, none, some (Num.ofRat 1)⟩).toOption.map
+        (fun m => (s.npts, m.npts, m.abstvec)))) = some (31, 5, some [0, 7, 14, 21, 28]) := by
+  decide +kernel
+
 end StarsimModel.C07
